@@ -67,6 +67,10 @@ class FunctionDispatch:
             # it's easier to just ignore that case.
             try:
                 ch = can_handle(typ)
+            except RecursionError:
+                # Not a property of the type: a reference cycle is being
+                # unwound (or the stack is nearly exhausted); let it through.
+                raise
             except Exception:  # noqa: S112
                 continue
             if ch:
@@ -123,6 +127,8 @@ class MultiStrategyDispatch(Generic[Hook]):
             dispatch = self._single_dispatch.dispatch(typ)
             if dispatch is not _DispatchNotFound:
                 return dispatch
+        except RecursionError:
+            raise
         except Exception:  # noqa: S110
             pass
 
